@@ -63,6 +63,11 @@ func TestWorker(t *testing.T) {
 	prog, _ := os.OpenFile(out+".progress", os.O_CREATE|os.O_WRONLY|os.O_TRUNC, 0o644)
 	minBudget := int(envInt("VERIF_MIN_EVALS", 1500))
 	maxSamples := 6
+	var caselog *os.File
+	if p := os.Getenv("VERIF_CASELOG"); p != "" {
+		caselog, _ = os.Create(p)
+		defer caselog.Close()
+	}
 	recycle := false
 	minTotal := time.Duration(envInt("VERIF_MIN_TOTAL_SECONDS", 30)) * time.Second
 	var minSpent time.Duration
@@ -85,6 +90,18 @@ func TestWorker(t *testing.T) {
 		tp := simrt.NewTape(seed, uint64(i))
 		r := spec.Fn(t, tp, ctx)
 		rep.Cases++
+		if caselog != nil {
+			// one line per case: everything a replay must reproduce (never draws, never reads a clock)
+			sh := uint64(0)
+			for _, x := range r.StateHash {
+				sh = sh*1099511628211 ^ x
+			}
+			var sigs []string
+			for _, v := range r.Viol {
+				sigs = append(sigs, v.Sig)
+			}
+			fmt.Fprintf(caselog, "case=%d draws=%d tape=%x sched=%x states=%x ticks=%d steps=%d discard=%q viol=%q\n", i, len(tp.Rec), hashJSON(tp.Values()), r.SchedHash, sh, r.Stats["ticks"], r.Stats["sched.steps"], r.Discard, sigs)
+		}
 		for k, v := range r.Stats {
 			if len(k) > 4 && k[:4] == "max." {
 				mergeMax(rep.MaxStats, k, v)
